@@ -2103,3 +2103,57 @@ func ruleC08InstanceFacts(c *Ctx) {
 		c.R.OK(rule, "none", c.P.Pos(m.E.Pos()), "no fact about the instance is computed under a keyword-presence test and used to guard another keyword group")
 	}
 }
+
+func init() {
+	for _, pid := range []string{"C11", "C12"} {
+		pid := pid
+		Properties[pid].Rules = append(Properties[pid].Rules, Rule{pid + "/number-extraction-total", func(c *Ctx) { ruleNumberExtractionTotal(c, pid+"/number-extraction-total") }})
+	}
+}
+
+// ruleNumberExtractionTotal: the number extractor says "not a number" only for values that are not numbers. A
+// `return _, false` that is reached although the value has been recognised as a json.Number makes that number a
+// non-number for the equality function, which then compares it by its other traits (a json.Number has kind string).
+func ruleNumberExtractionTotal(c *Ctx, rule string) {
+	ext := c.NumberExtractor(rule)
+	if ext == nil {
+		return
+	}
+	n := 0
+	for _, fn := range core.WithAnon(ext) {
+		core.EachInstr(fn, func(i ssa.Instruction) {
+			ret, ok := i.(*ssa.Return)
+			if !ok || fn != ext || len(ret.Results) != 2 {
+				return
+			}
+			for _, rv := range append(traceSources(ret.Results[1]), ret.Results[1]) {
+				k, isConst := rv.(*ssa.Const)
+				if !isConst || k.Value == nil || k.Value.String() != "false" {
+					continue
+				}
+				n++
+				recognised := ""
+				for _, g := range guardsOf(ret) {
+					if ex, ok := g.Cond.(*ssa.Extract); ok && g.Pol && ex.Index == 1 {
+						if ta, ok := ex.Tuple.(*ssa.TypeAssert); ok && isNamed(ta.AssertedType, "encoding/json", "Number") {
+							recognised = "json.Number"
+						}
+					}
+					if gc, ok := g.Cond.(*ssa.Call); ok && g.Pol {
+						switch core.CalleeKey(&gc.Call) {
+						case "reflect.Value.CanInt", "reflect.Value.CanUint", "reflect.Value.CanFloat":
+							recognised = strings.TrimPrefix(core.CalleeKey(&gc.Call), "reflect.Value.")
+						}
+					}
+				}
+				if recognised == "" {
+					c.R.OK(rule, fmt.Sprintf("extractor:not-a-number#%d", n), c.pos(ret), "\"not a number\" is answered for a value not recognised as a number")
+					continue
+				}
+				c.R.Bad(rule, "extractor:gives-up-on:"+recognised, c.pos(ret), "the number extractor answers \"not a number\" for a value it has recognised as a "+recognised+" (the exact conversion failed): such a number is then compared by its other traits - a json.Number has kind string, so it equals the string with the same spelling, and `const`/`enum` accept it for that string")
+				break
+			}
+		})
+	}
+	c.R.Floor(rule, "\"not a number\" exits of the number extractor", n, 2)
+}
